@@ -104,6 +104,11 @@ class Walker:
             return {k2: c * b[1] for k2, c in a[0].items() if c * b[1]}, a[1] * b[1]
         if k == "Bin" and e["op"] in ASSIGN_OPS:
             return self._lin(sk(e["a"][0]), st)
+        if k == "Un" and e["op"] in ("post++", "post--"):
+            return self._lin(sk(e["a"][0]), st)          # value before the update
+        if k == "Un" and e["op"] in ("pre++", "pre--"):
+            a = self._lin(sk(e["a"][0]), st)
+            return None if a is None else (a[0], a[1] + (1 if "++" in e["op"] else -1))
         if k == "Cond":
             t = st.truth.get(e["a"][0].get("n"), st.truth.get(sk(e["a"][0]).get("n")))
             if t is True:
